@@ -6,8 +6,9 @@ from fractions import Fraction
 ID = "C04"
 LEVEL = "other"
 from lib.core import existing_modules
-LEAN_MODULES = existing_modules(["Sonic.Props.C04"]) + ["Sonic.Spec.Json"]
-REQUIRED_THEOREMS = (["Sonic.Props.C04." + n for n in ["C04_tables"]]) if "Sonic.Props.C04" in LEAN_MODULES else []  # TODO strict once the proofs have landed
+LEAN_MODULES = ["Sonic.Props.C04"]
+REQUIRED_THEOREMS = ["Sonic.Props.C04." + n for n in ["C04_tables", "C04_scan_grammar", "C04_int_kinds", "C04_accumulate", "C04_zero", "C04_fast_exact",
+                                                         "C04_fast_path_correct", "Rne_monotone", "C04_retry_sound"]]
 CONFIGS = [("avx2", "prod"), ("sse", "prod"), ("avx2", "san")]
 CONFIGS_THOROUGH = CONFIGS + [("dyn", "prod"), ("sse", "san")]
 RULE = ("number texts: for every decimal exponent -348..347 (every row of the power-of-ten table) mantissas 1, 2^53-1, 2^53+1, 10^16-1, "
